@@ -57,7 +57,7 @@ def text_of(patt):
 def check_memo(p):
     """State invariant: once set, the search table equals its definition."""
     tab = p._cached_pattern_details
-    if tab is None:
+    if tab is None or not C.is_perm(tuple(p)):
         return
     CTX.count("memo.checked")
     CTX.ev()
@@ -71,6 +71,9 @@ def done_occurrences_in(args, kwargs, items, exhausted, exc):
     if not isinstance(self, Perm) or not isinstance(patt, (Perm, MeshPatt)):
         return
     p, t = tuple(self), text_of(patt)
+    if not (C.is_perm(p) and C.is_perm(t)):
+        CTX.count("skipped_not_a_permutation")
+        return
     if exc is not None:
         report("pair", [enc(self), list(t)], f"occurrences_in raised {exc!r}")
         return
@@ -108,7 +111,7 @@ def done_occurrences_of(args, kwargs, items, exhausted, exc):
     if not isinstance(patt, Perm) or exc is not None:
         return
     p, t = tuple(patt), tuple(self)
-    if too_big(len(p), len(t)):
+    if too_big(len(p), len(t)) or not (C.is_perm(p) and C.is_perm(t)):
         return
     want = C.occ_cached(p, t)
     CTX.ev()
@@ -134,6 +137,9 @@ def post_bool(label, expect_fn):
         t = tuple(self)
         if any(too_big(len(q), len(t)) for q in patts):
             CTX.count("oracle_skipped")
+            return
+        if not (C.is_perm(t) and all(C.is_perm(tuple(q)) for q in patts)):
+            CTX.count("skipped_not_a_permutation")
             return
         case = ("multi", [list(t), [list(q) for q in patts]])
         if exc is not None:
@@ -165,7 +171,7 @@ def post_count(args, kwargs, res, exc):
     if not (isinstance(self, Perm) and isinstance(patt, Perm)):
         return
     t, p = tuple(self), tuple(patt)
-    if too_big(len(p), len(t)):
+    if too_big(len(p), len(t)) or not (C.is_perm(p) and C.is_perm(t)):
         return
     CTX.ev()
     want = len(C.occ_cached(p, t))
@@ -178,7 +184,7 @@ def post_count_in(args, kwargs, res, exc):
     if not (isinstance(self, Perm) and isinstance(patt, Perm)):
         return
     p, t = tuple(self), tuple(patt)
-    if too_big(len(p), len(t)):
+    if too_big(len(p), len(t)) or not (C.is_perm(p) and C.is_perm(t)):
         return
     CTX.ev()
     want = len(C.occ_cached(p, t))
@@ -191,7 +197,7 @@ def post_contained_in(args, kwargs, res, exc):
     if not isinstance(self, Perm) or not classical_only(others):
         return
     p = tuple(self)
-    if any(too_big(len(p), len(o)) for o in others):
+    if any(too_big(len(p), len(o)) for o in others) or not (C.is_perm(p) and all(C.is_perm(tuple(o)) for o in others)):
         return
     CTX.ev()
     want = all(bool(C.occ_cached(p, tuple(o))) for o in others)
@@ -204,7 +210,7 @@ def post_avoided_by(args, kwargs, res, exc):
     if not isinstance(self, Perm) or not classical_only(others):
         return
     p = tuple(self)
-    if any(too_big(len(p), len(o)) for o in others):
+    if any(too_big(len(p), len(o)) for o in others) or not (C.is_perm(p) and all(C.is_perm(tuple(o)) for o in others)):
         return
     CTX.ev()
     want = all(not C.occ_cached(p, tuple(o)) for o in others)
@@ -214,7 +220,7 @@ def post_avoided_by(args, kwargs, res, exc):
 
 def done_lfc(args, kwargs, items, exhausted, exc):
     self = args[0]
-    if not exhausted:
+    if not exhausted or len(set(self)) != len(self):
         return
     CTX.ev()
     want = C.left_floor_ceiling(tuple(self))
